@@ -17,7 +17,7 @@ Not decided: textual round trip of floating-point values / whole graphs through 
 import copy
 from fractions import Fraction
 
-from ..astq import strip, strip_casts, calls, call_args, writes, written_field, norm, literal_value, src, single_assignment_locals
+from ..astq import strip, strip_casts, calls, call_args, writes, written_field, norm, literal_value, src, single_assignment_locals, call_object
 from ..cfg import CFG
 from ..facts import AnalysisBroken, walk
 from ..microai.interp import Interp, Obj, Vec, Box, Closure, enumerate_paths, AssertFail, Thrown, Unsupported
@@ -896,9 +896,40 @@ def rule_subset_transforms(chk, prog):
             (r.bad if bad else r.ok)(inst, fn.where(), bad or "%d pairs" % len(want))
 
 
+def rule_swap_repoints(chk, prog):
+    r = chk.rule("MATRIX-BACKPOINTER", "swap(Graph&, Graph&) -- and with it Graph's copy-and-swap assignment -- exchanges the SepMatrix members and then "
+                 "points each matrix back at the graph that now owns it (setGraph(&first), setGraph(&second)) on every path; Graph's copy "
+                 "constructor does the same for its copy: a matrix pointing at the other graph looks node ids up there", floor=2)
+    cands = [f for f in prog.all_functions() if f.q == "dialect::swap" and len(f.params) == 2 and "dialect::Graph" in f.params[0]["t"] and f.body is not None]
+    if len(cands) != 1:
+        raise AnalysisBroken("dialect::swap(Graph&, Graph&) not found")
+    fn = cands[0]
+    g = CFG(fn)
+    a, b = fn.params[0]["name"], fn.params[1]["name"]
+    sw = [c for c in calls(fn) if "swap" in str(c.get("cname", "")) and len(call_args(c)) == 2 and norm(call_args(c)[0]).endswith(".m_sepMatrix")]
+    r.count()
+    bad = None
+    if not sw:
+        raise AnalysisBroken("swap: the exchange of m_sepMatrix was not found")
+    for who in (a, b):
+        sg = [c for c in calls(fn) if c.get("cname") == "dialect::SepMatrix::setGraph" and norm(call_object(c)) == who + ".m_sepMatrix"
+              and norm(call_args(c)[0]).replace(" ", "") in ("&" + who, "(&%s)" % who)]
+        if not sg or g.must_follow(sw[0]["id"], [c["id"] for c in sg]) is not None:
+            bad = bad or "after the matrices are exchanged, %s.m_sepMatrix is not pointed back at %s" % (who, who)
+    (r.bad if bad else r.ok)("swap(Graph&, Graph&)", fn.loc(sw[0]), bad or "")
+    cc = [f for f in prog.all_functions() if f.kind == "ctor" and f.cls == "dialect::Graph" and len(f.params) == 1 and "const dialect::Graph &" in f.params[0]["t"] and f.body is not None]
+    r.count()
+    if not cc:
+        raise AnalysisBroken("Graph copy constructor not found")
+    sg = [c for c in calls(cc[0]) if c.get("cname") == "dialect::SepMatrix::setGraph" and "this" in norm(call_args(c)[0])]
+    ok = bool(sg) and CFG(cc[0]).exit_reachable_avoiding([c["id"] for c in sg]) is None
+    (r.ok if ok else r.bad)("Graph copy constructor", cc[0].where(), "" if ok else "the copied matrix is not pointed at the new graph")
+
+
 def run(chk):
     prog = chk.load()
     PROG[0] = prog
+    chk.guard(rule_swap_repoints, chk, prog)
     chk.guard(rule_subset_transforms, chk, prog)
     chk.guard(rule_tglf, chk, prog)
     chk.guard(rule_vpsc_gap, chk, prog)
